@@ -100,8 +100,59 @@ def _check_positions(ex, toks, n, b, info):
         last = pos
 
 
+# ------------------------------------------------------------------------------------------ H2 long tokens (beyond any small symbolic bound)
+LONG_FORMS = [("digits", b"", b"7", b" "), ("signed digits", b"-", b"7", b" "), ("real", b"0.", b"7", b" "), ("digits then dot", b"", b"7", b". "), ("name", b"/", b"a", b" "),
+              ("name escapes", b"/", b"#41", b" "), ("keyword", b"", b"k", b" "), ("literal string", b"(", b"a", b") "), ("nested parentheses", b"", b"(", b") "),
+              ("escapes in a string", b"(", b"\\(", b") "), ("hex string", b"<", b"4", b"> "), ("comment", b"%", b"c", b"\n"), ("white space", b"", b" ", b"x "),
+              ("array brackets", b"", b"[", b"] "), ("dictionary brackets", b"", b"<<", b">> ")]
+LONG_LENGTHS = [4095, 4096, 4097, 4300, 4301, 8192, 70000]
+LONG_BUFS = [4096, 509, 4097]
+
+
+def long_input(form, length):
+    name, head, unit, tail = LONG_FORMS[form]
+    body = unit * length
+    if name == "nested parentheses":
+        body = b"(" * length + b")" * (length - 1)
+    return head + body + tail + b"1 "
+
+
+def long_check(form, length):
+    """the real tokenizer on one long token: only end of input is signalled, and the tokens do not depend on the buffer size"""
+    data = long_input(form, length)
+    ref = None
+    for b in LONG_BUFS:
+        got, err = pc.real_tokens(data, b)
+        if err:
+            return "%s of %d units (%r...), BUFSIZ %d: %s" % (LONG_FORMS[form][0], length, data[:12], b, err[:200])
+        sig = [(pos, repr(tok)[:40], len(repr(tok))) for pos, tok in got]
+        if ref is None:
+            ref = sig
+        elif sig != ref:
+            return "%s of %d units: the tokens differ between BUFSIZ %d and BUFSIZ %d (%d vs %d tokens)" % (LONG_FORMS[form][0], length, LONG_BUFS[0], b, len(ref), len(sig))
+    return None
+
+
+def h2_long(timeout=300, part=None, **kw):
+    """tokens far longer than the symbolic bound: each lexical form repeated 4095 .. 70000 times (around the read-buffer size and around CPython's 4300-digit integer limit), at three buffer
+    sizes - concrete runs selected by symbolic choices"""
+    import pdfminer.psparser as ps
+
+    def fn(ex):
+        form = ex.choice(len(LONG_FORMS), "form")
+        li = ex.choice(len(LONG_LENGTHS), "length")
+        r = long_check(form, LONG_LENGTHS[li])
+        ex.require(r is None, r or "", form=form, length=LONG_LENGTHS[li])
+
+    def conc(m, info):
+        return {"long": True, "form": info["form"], "length": info["length"]}
+    return core.run_symx("H2_long", fn, [ps.PSBaseParser.nexttoken, ps.PSBaseParser.fillbuf], {"forms": [f[0] for f in LONG_FORMS], "lengths": LONG_LENGTHS, "BUFSIZ": LONG_BUFS}, timeout, concretize=conc, part=part)
+
+
 def replay(harness, inp):
     import pdfminer.psparser as ps
+    if inp.get("long"):
+        return long_check(inp["form"], inp["length"])
     state, si, data = inp["state"], inp["seed"], inp["data"]
     cur, attrs = SEEDS.get(state, [(b"", {})])[si]
     if not hasattr(ps.PSBaseParser, state):
@@ -124,7 +175,7 @@ def replay(harness, inp):
 
 
 def jobs(tier):
-    J = []
+    J = [Job("H2_long:%d" % k, "h2_long", {"part": [k, 4, 5]}, 300, "H2_long") for k in range(4)]
     st = states()
     if tier == "quick":
         for s in st:
